@@ -110,6 +110,7 @@ type memTx struct {
 
 type session struct {
 	d    *Driver
+	fq   *chainFeedQuerier
 	w    *world.World
 	r    *world.Run
 	val  world.Account
@@ -381,6 +382,7 @@ func (d *Driver) RunScript(sc tf.Script) {
 	submitCh := make(chan submitter.SignalPriceSubmission, 300)
 	s.ch = submitCh
 	fq := newChainFeedQuerier(fk, func() sdk.Context { cc, _ := s.r.Ctx.CacheContext(); return cc })
+	s.fq = fq
 	s.sg = signaller.New(fq, s.both, time.Second, submitCh, lg, s.val.ValAddr, s.pend, distStart, distOffset)
 	cl := &fakeClient{g: s.g, cdc: codec.NewProtoCodec(w.App.InterfaceRegistry())}
 	sm, err := submitter.New(d.cc, []rpcclient.RemoteClient{cl}, s.both, lg, submitCh, fakeAuthQuerier{g: s.g},
@@ -464,7 +466,14 @@ func (s *session) apply(step tf.M) {
 		s.log("SetFeeds", tf.M{}, tf.M{"ok": true})
 	case "Poll":
 		s.last = s.clk
+		// scripted query faults of this poll
+		qs := tf.Strs(step, "q")
+		s.fq.fail = map[string]bool{}
+		for _, q := range qs {
+			s.fq.fail[q] = true
+		}
 		res := s.sg.VerifStep(s.now())
+		s.fq.fail = nil
 		stage := res.Stage
 		if stage == "noSignals" {
 			stage = "nothing"
@@ -485,6 +494,11 @@ func (s *session) apply(step tf.M) {
 				s.waitGate(x)
 				s.dropDone()
 			}
+		}
+		if len(qs) > 0 {
+			// a poll with a failed chain query: whatever the daemon did is compared with "decides nothing"
+			s.log("PollFail", tf.M{"q": qs}, tf.M{"stage": stage, "n": len(res.Prices)})
+			return
 		}
 		s.log("Poll", tf.M{}, tf.M{"stage": stage, "m": quotesJSON(m), "dup": len(m) != len(res.Prices)})
 	case "Bcast":
